@@ -40,7 +40,7 @@ def run(ctx):
         for bits in small_bits:
             for shape in ("nrz", "rz"):
                 cnt += 1
-                vout, bias = [(-3, 2), (1, 0), (2, -1), (1, 2), (-3, -1)][cnt % 5]
+                vout, bias = [(-3, 2), (1, 0), (2, -1), (1, 2), (-3, -1), (0, 1), (0, 0), (2, 0)][cnt % 8]
                 f = forms[cnt % 5]
                 with deadline(30):
                     w = DAC(form(bits, f), float(bias), float(vout), shape if cnt % 2 else shape.upper())
@@ -64,8 +64,8 @@ def run(ctx):
         bits = [rnd.randrange(2) for _ in range(n)]
         shape = rnd.choice(["nrz", "rz", "rect"])
         sh = "rz" if shape == "rz" else "nrz"
-        vout = rnd.choice([-1, 1]) * rnd.randrange(1, 48 * 64) / 64
-        bias = rnd.randrange(-47 * 64, 47 * 64) / 64
+        vout = rnd.choice([-1, 1]) * rnd.randrange(1, 48 * 64) / 64 if it % 9 else 0.0
+        bias = rnd.randrange(-47 * 64, 47 * 64) / 64 if it % 7 else 0.0
         f = rnd.choice(forms)
         with deadline(30):
             w = DAC(form(bits, f), bias, vout, shape)
